@@ -176,5 +176,28 @@ def monitorObs (tbl : Table) (hyp : Bool) (c : Custom) (m : String) (toks : Opti
         | _, _ => false
       if good then .ok else .expected .notFound
 
+/-! ### `search.Tree` used directly with raw (uncleaned) strings -/
+
+/-- the route a raw token list denotes: a single trailing empty element (trailing slash) is dropped. -/
+def normToks : List String → List String
+  | t :: r :: rs => if r = "" ∧ rs = [] then [t] else t :: normToks (r :: rs)
+  | l => l
+
+/-- the key of a raw route string: its elements without one trailing slash; the root is the empty key. -/
+def rawKey (route : String) : List String :=
+  if normToks (toksOf route) = [""] then [] else normToks (toksOf route)
+
+/-- a stored key matches a raw token list: segment by segment, or — when the raw list ends with an empty
+element (trailing slash) — segment by segment without it. -/
+def matchesRawB (ks toks : List String) : Bool :=
+  matchesP ks toks || (toks.getLast? == some "" && matchesP ks toks.dropLast)
+
+/-- what the registration rule says for a raw `Tree.Add(route, item)` on a tree holding the keys `keys`. -/
+def rawAddVerdict (keys : List (List String)) (route : String) (item : Option H) : String :=
+  if !rooted route then "notfromroot"
+  else if item.isNone then "empty"
+  else if (toksOf route).dropLast.contains "" then "dupslash"
+  else if keys.contains (rawKey route) then "dup" else "ok"
+
 end Spec
 end GoZero.C09
